@@ -97,9 +97,19 @@ def held_back_behind_blocks(impl):
     return False
 
 
+TOK_FAMILIES = [[0x51, 0x62, 0x73, 0x84, 0x95, 0xa6, 0xb7, 0xc8], [0] * 8,
+                [0xa0, 0x01, 0x02, 0x03, 0x04, 0x05, 0x06, 0x07], [0x9f, 0x80, 0x9f, 0x80, 0x9f, 0x80, 0x9f, 0x80]]
+
+
 def tok_of(c, t):
     """harness/observe.c: token index t < 128 -> bytes (0xA0 + c, t), a value only client c uses; t >= 128 -> bytes (0x9F, t), the
-    same value whichever client sends it (tokens are only unique per client endpoint: an observer is (client, token))"""
+    same value whichever client sends it (tokens are only unique per client endpoint: an observer is (client, token));
+    t = 256 + 9*f + len -> the first len (0..8) bytes of the 8-byte string TOK_FAMILIES[f] (`-` = the empty token).  A token is
+    the whole byte string, length included (RFC 7252 §3, §5.3.1): the empty token and a proper prefix of another token are other
+    tokens — the registry below is keyed by the printed string, so it never confuses them."""
+    if t >= 256:
+        n = (t - 256) % 9
+        return "".join("%02x" % b for b in TOK_FAMILIES[(t - 256) // 9][:n]) or "-"
     return "%02x%02x" % (0x9F if t >= 128 else 0xA0 + c, t)
 
 
